@@ -15,13 +15,14 @@ def run(ctx):
                 "content).  Both must give the authored page count, MediaBox, rotation and - through the authoring model of "
                 "ContentOps.tla - the authored content operators with operands within the documented rounding.  Interactive documents "
                 "(annotations of 14 kinds, form fields of 6 kinds; module Interactive) must in addition show, to the reference reader, "
-                "exactly the authored annotations on each page and the authored fields under /AcroForm.  Non-trivial = "
+                "exactly the authored annotations on each page and the authored fields under /AcroForm; tagged documents (module Tagged) "
+                "the authored structure tree, with the parent tree leading from every owned marked-content sequence to its element.  Non-trivial = "
                 "document with at least one numeric or string operand in its content; distinct by hash.")
     ctx.assumptions = ["content authoring API subset as in C21; annotations and form fields as in C03 (MCDoc.DocX); images and outlines are covered by C24 and C28",
                        "a page carries either a graphics program or a text/marked-content program, so that the order in which Page interleaves its two contexts is not part of the expectation",
                        "(object streams, cross-reference stream, uncompressed) not generated, see C03"]
     of = c03.generate_docs(ctx, thorough)
-    tp = c03.run_docs(ctx, of, ("chk_pages", "chk_interactive"))
+    tp = c03.run_docs(ctx, of, ("chk_pages", "chk_interactive", "chk_tagged"))
     vlib.validate_cases(ctx, "syntax", "FileTrace", tp, "readback", describe=c03.describe, timeout=6000, marker="file")
     cases = vlib.split_cases(vlib.read_ndjson(tp), marker="file")
     for c in cases:
